@@ -56,7 +56,10 @@ int g_hint = -2;        /* lookup hint for the map stub (stubs/C12_umap.h): -2 =
 /* ---------------------------------------------------------------------------------------------- reference model */
 /* slot[] is the refinement witness: which node of the map holds the entry (node addresses are stable, so an entry keeps its
  * node for its whole life; a new entry gets the first free node of the stub's pool) */
-typedef struct { int n; K key[NS]; size_t size[NS]; V val[NS]; int slot[NS]; } model;
+/* total is the reference list's "sum of the current entries' sizes", maintained by the primitives below; that it *is* the sum
+ * (modulo 2^64) is the separate obligation h_model_total -- keeping the 64-bit summation out of the per-shape queries, where two
+ * structurally equal adder chains are not shared by the SAT encoding */
+typedef struct { int n; K key[NS]; size_t size[NS]; V val[NS]; int slot[NS]; size_t total; } model;
 
 static int m_find(const model* m, K k)
 {
@@ -65,7 +68,7 @@ static int m_find(const model* m, K k)
       return j;
   return -1;
 }
-static void m_remove(model* m, int idx)
+static void m_remove_entry(model* m, int idx)
 {
   for (int j = 0; j < NS - 1; j++)
     if (j >= idx) {
@@ -76,7 +79,7 @@ static void m_remove(model* m, int idx)
     }
   m->n--;
 }
-static void m_push_front(model* m, K k, size_t s, V v, int slot)
+static void m_push_entry(model* m, K k, size_t s, V v, int slot)
 {
   for (int j = NS - 1; j > 0; j--) {
     m->key[j] = m->key[j - 1];
@@ -90,22 +93,41 @@ static void m_push_front(model* m, K k, size_t s, V v, int slot)
   m->slot[0] = slot;
   m->n++;
 }
+static void m_remove(model* m, int idx)
+{
+  m->total -= m->size[idx];
+  m_remove_entry(m, idx);
+}
+static void m_push_front(model* m, K k, size_t s, V v, int slot)
+{
+  m->total += s;
+  m_push_entry(m, k, s, v, slot);
+}
+static void m_resize(model* m, int idx, size_t s)
+{
+  m->total += s - m->size[idx];
+  m->size[idx] = s;
+}
+static void m_clear(model* m)
+{
+  m->n = 0;
+  m->total = 0;
+}
 static void m_to_front(model* m, int idx)
 {
   K k = m->key[idx];
   size_t s = m->size[idx];
   V v = m->val[idx];
   int slot = m->slot[idx];
-  m_remove(m, idx);
-  m_push_front(m, k, s, v, slot);
+  m_remove_entry(m, idx);                  /* same entries, same total */
+  m_push_entry(m, k, s, v, slot);
 }
 /* ---------------------------------------------------------------------------------------------- state of a given shape */
-static void build(LRU* c, umap_node* pool, const int* order, int cnt, const K* keys, const size_t* sizes, const V* vals, model* m)
+static void build(LRU* c, umap_node* pool, const int* order, int cnt, const K* keys, const size_t* sizes, const V* vals, size_t total, model* m)
 {
   c->items.nodes = pool;
   for (int j = 0; j < NS; j++)
     pool[j].used = 0;                       /* the other fields of a dead node stay indeterminate */
-  size_t total = 0;
   for (int r = 0; r < NS; r++)
     if (r < cnt) {
       int s = order[r];
@@ -127,10 +149,7 @@ static void build(LRU* c, umap_node* pool, const int* order, int cnt, const K* k
           __CPROVER_assume(keys[order[q]] != keys[s]);      /* a map holds each key once */
     }
   m->n = cnt;
-  total = 0;
-  for (int j = 0; j < NS; j++)
-    if (pool[j].used)
-      total += sizes[j];                     /* summed in node order, as check() does (64-bit adders do not commute for free in SAT) */
+  m->total = total;                        /* representation invariant: total_size is the sum of the entries' sizes (see model) */
   c->head = cnt ? &pool[order[0]].second : 0;
   c->tail = cnt ? &pool[order[cnt - 1]].second : 0;
   c->total_size = total;
@@ -169,17 +188,13 @@ static void check(const LRU* c, const umap_node* pool, const model* m)
   __CPROVER_assert(p == 0, "the chain ends after the last reference entry (acyclic, nothing extra linked)");
   __CPROVER_assert(c->tail == prev, "tail is the last item of the chain (0 when empty)");
   int live = 0;
-  size_t sum = 0;
   for (int j = 0; j < NS; j++)
-    if (pool[j].used) {
+    if (pool[j].used)
       live++;
-      sum += pool[j].second.size;
-    }
   __CPROVER_assert(live == m->n, "every live node of the map is linked (no leak, no entry lost)");
-  /* live nodes == linked entries == reference entries (asserted above), so this sum is the sum over the reference list */
-  __CPROVER_assert(c->total_size == sum, "total_size is the sum of the sizes of the current entries");
+  __CPROVER_assert(c->total_size == m->total, "total_size is the sum of the sizes of the current entries (reference total)");
   /* the observers */
-  __CPROVER_assert(M(size)(c) == sum, "size() is the sum of the current entries' sizes");
+  __CPROVER_assert(M(size)(c) == m->total, "size() is the sum of the current entries' sizes");
   __CPROVER_assert(M(count)(c) == (size_t)m->n, "count() is the number of keys");
 #ifdef C12_MAP
   __CPROVER_assert(M(empty)(c) == (m->n == 0), "empty() iff no keys");
@@ -205,7 +220,7 @@ void h_step(void)
   V in_val[NS], in_val_b[NS];
   K in_k;
   V in_v;
-  size_t in_sz;
+  size_t in_sz, in_total, in_total_b;
   ssize_t in_nsz;
   bool in_touch;
   LRU a, b;
@@ -216,10 +231,10 @@ void h_step(void)
   /* base case of the induction: a new container is the empty list */
   a.items.nodes = pool_a;
   M(ctor)(&a);
-  ma.n = 0;
+  m_clear(&ma);
   check(&a, pool_a, &ma);
 #else
-  build(&a, pool_a, order_a, CNT_A, in_key, in_size, in_val, &ma);
+  build(&a, pool_a, order_a, CNT_A, in_key, in_size, in_val, in_total, &ma);
 #endif
 
   int free_a = first_free(pool_a);        /* the node a new entry will get */
@@ -230,7 +245,11 @@ void h_step(void)
 #if OP == OP_evict_object
   __CPROVER_assume(in_hit == CNT_A - 1);          /* evict looks its own victim up by key: the tail entry */
 #else
+#ifdef HIT
+  __CPROVER_assume(in_hit == HIT);
+#else
   __CPROVER_assume(in_hit >= -1 && in_hit < CNT_A);
+#endif
 #endif
   for (int idx = -1; idx < NS - 1; idx++)
     if (idx < CNT_A && in_hit == idx) {
@@ -257,7 +276,7 @@ void h_step(void)
   if (idx < 0)
     m_push_front(&ma, in_k, in_sz, in_v, free_a);
   else {
-    ma.size[idx] = in_sz;
+    m_resize(&ma, idx, in_sz);
     ma.val[idx] = in_v;
     m_to_front(&ma, idx);
   }
@@ -281,7 +300,7 @@ void h_step(void)
   check(&a, pool_a, &ma);
 #elif OP == OP_clear
   M(clear)(&a);
-  ma.n = 0;
+  m_clear(&ma);
   __CPROVER_assert(verif_exc == 0, "no exception");
   check(&a, pool_a, &ma);
 #elif OP == OP_change_size
@@ -291,7 +310,7 @@ void h_step(void)
   bool r = M(change_size)(&a, in_k, in_sz);
 #endif
   if (idx >= 0) {
-    ma.size[idx] = in_sz;
+    m_resize(&ma, idx, in_sz);
 #ifdef C12_MAP
     if (in_touch)
       m_to_front(&ma, idx);
@@ -304,7 +323,7 @@ void h_step(void)
   bool r = M(touch)(&a, in_k, in_nsz);
   if (idx >= 0) {
     if (in_nsz >= 0)
-      ma.size[idx] = (size_t)in_nsz;
+      m_resize(&ma, idx, (size_t)in_nsz);
     m_to_front(&ma, idx);
   }
   __CPROVER_assert(r == (idx >= 0), "touch returns true exactly for an existing key");
@@ -342,7 +361,7 @@ void h_step(void)
   verif_exc = 0;
   check(&a, pool_a, &ma);
 #elif OP == OP_swap
-  build(&b, pool_b, order_b, CNT_B, in_key_b, in_size_b, in_val_b, &mb);
+  build(&b, pool_b, order_b, CNT_B, in_key_b, in_size_b, in_val_b, in_total_b, &mb);
   M(swap)(&a, &b);
   __CPROVER_assert(verif_exc == 0, "no exception");
   check(&a, pool_b, &mb);
@@ -379,5 +398,42 @@ void h_step(void)
   check(&a, pool_a, &ma);
 #endif
     }
+  VERIF_REACH();
+}
+
+/* The reference list's total is the sum of its sizes: preserved by every primitive, from any list of at most NS - 1 entries. */
+static size_t m_sum(const model* m)
+{
+  size_t t = 0;
+  for (int j = 0; j < NS; j++)
+    if (j < m->n)
+      t += m->size[j];
+  return t;
+}
+void h_model_total(void)
+{
+  model m;
+  int in_prim, in_idx;
+  K in_k;
+  V in_v;
+  size_t in_sz;
+  __CPROVER_assume(m.n >= 0 && m.n <= NS - 1);
+  __CPROVER_assume(m.total == m_sum(&m));
+  __CPROVER_assume(in_idx >= 0 && in_idx < NS);
+  if (in_prim == 0)
+    m_push_front(&m, in_k, in_sz, in_v, 0);
+  else if (in_prim == 1)
+    m_clear(&m);
+  else {
+    __CPROVER_assume(in_idx < m.n);
+    if (in_prim == 2)
+      m_remove(&m, in_idx);
+    else if (in_prim == 3)
+      m_resize(&m, in_idx, in_sz);
+    else
+      m_to_front(&m, in_idx);
+  }
+  __CPROVER_assert(m.n >= 0 && m.n <= NS, "reference list stays within the bound");
+  __CPROVER_assert(m.total == m_sum(&m), "the reference total is the sum of the sizes of the reference entries");
   VERIF_REACH();
 }
